@@ -177,6 +177,28 @@ pub struct Run<'a> {
     pub pattern_salt: u8,
     /// stats() succeeded at least once since the last mount
     stats_queried: bool,
+    /// C13: the current session is read-only; any device write is judged
+    pub ro_mode: bool,
+    ro_fsinfo_unusable: bool,
+    /// C14: flush points under observation
+    pub crash: bool,
+    pub base_image: Option<Store>,
+    pub flush_events: Vec<FlushEvent>,
+}
+
+/// a point at which flushing or dropping a handle returned: the file must survive any later power cut
+#[derive(Clone, Debug)]
+pub struct FlushEvent {
+    pub node: Nid,
+    pub path: String,
+    pub data: Vec<u8>,
+    /// number of device writes issued when the flush returned
+    pub at: usize,
+    /// a device flush was issued after the last of those writes
+    pub barrier: bool,
+    /// number of device writes issued when the guarantee was suspended (None = still valid)
+    pub until: Option<usize>,
+    pub step: usize,
 }
 
 pub fn pattern(seed: u8, off: u64) -> u8 {
@@ -207,13 +229,29 @@ impl<'a> Run<'a> {
             last_dec: None,
             pattern_salt: 0,
             stats_queried: false,
+            ro_mode: false,
+            ro_fsinfo_unusable: false,
+            crash: false,
+            base_image: None,
+            flush_events: Vec::new(),
         };
         r.mount().map_err(|v| v.msg)?;
         r.last_dec = r.dev.with_store(|s| refdec::decode(s, refdec::DecodeOpts::default())).ok();
         Ok(r)
     }
 
-    fn viol(&self, aspect: Aspect, msg: String) -> Violation {
+    /// C14: start recording every device write with its data, on top of a snapshot of the current image
+    pub fn enable_crash_observation(&mut self) {
+        self.crash = true;
+        self.base_image = Some(self.dev.snapshot());
+        self.dev.with(|d| {
+            d.log_data = true;
+            d.wlog.clear();
+            d.flush_marks.clear();
+        });
+    }
+
+    pub fn viol(&self, aspect: Aspect, msg: String) -> Violation {
         Violation { aspect, step: self.step, msg }
     }
 
@@ -295,7 +333,11 @@ impl<'a> Run<'a> {
             self.call("drop file handle", |s| {
                 s.files[k] = None;
             })?;
+            let n = self.files[k].as_ref().map(|f| f.node);
             self.files[k] = None;
+            if let (true, Some(n)) = (self.crash, n) {
+                self.record_flush_event(n);
+            }
         }
         Ok(())
     }
@@ -462,7 +504,13 @@ impl<'a> Run<'a> {
                 d.log.clear();
             });
         }
+        if self.crash {
+            self.suspend_touched(op);
+        }
         let ran = self.exec_inner(op)?;
+        if self.ro_mode {
+            self.check_readonly(&format!("{:?}", op))?;
+        }
         if ran {
             self.trace.ops_run += 1;
         } else {
@@ -854,9 +902,14 @@ impl<'a> Run<'a> {
                     self.trace.excluded_known += 1;
                     return Ok(false);
                 }
+                if !self.cfg.wants(Aspect::Outcome) {
+                    // not this property's business, and the model cannot follow a tree with a cycle
+                    return Ok(false);
+                }
                 // a directory cannot be moved into its own subtree: no in-memory tree allows it
                 ok_allowed = false;
                 errs.push(EK::InvalidInput);
+                plan = None;
             } else {
                 // space: the entry needs room in the destination directory; slots of the source entry may or
                 // may not count as free depending on the order the library works in: accept either in between
@@ -985,6 +1038,154 @@ impl<'a> Run<'a> {
         }
         if let Some(f) = self.files[k].as_mut() {
             f.dirty = false;
+        }
+        if self.crash {
+            if let Some(n) = self.files[k].as_ref().map(|f| f.node) {
+                self.record_flush_event(n);
+            }
+        }
+        Ok(())
+    }
+
+    fn record_flush_event(&mut self, n: Nid) {
+        let (at, barrier) = self.dev.with(|d| (d.wlog.len(), d.flush_marks.last().copied() == Some(d.wlog.len())));
+        for e in self.flush_events.iter_mut() {
+            if e.node == n && e.until.is_none() {
+                e.until = Some(at);
+            }
+        }
+        let ev = FlushEvent { node: n, path: self.model.path_of(n), data: self.model.data(n).clone(), at, barrier, until: None, step: self.step };
+        self.flush_events.push(ev);
+        self.trace.hit("flush_point");
+    }
+
+    /// suspend the C14 guarantee of every observed file the op may modify: the file itself through a handle, or
+    /// the file / one of its ancestors through remove or rename
+    fn suspend_touched(&mut self, op: &Op) {
+        let at = self.dev.with(|d| d.wlog.len());
+        let mut touched: Vec<Nid> = Vec::new();
+        let handle_node = |h: u8| self.files[h as usize % NSLOTS].as_ref().map(|f| f.node);
+        match op {
+            Op::Write { h, .. } | Op::Truncate { h } | Op::SetTimes { h, .. } | Op::Read { h, .. } | Op::CloseFile { h } => {
+                if let Some(n) = handle_node(*h) {
+                    touched.push(n);
+                }
+            }
+            Op::Remove { via, path } => {
+                if let Resolved::At(p, name) = self.model.resolve(self.via_node(*via), path) {
+                    if let Some(n) = self.model.lookup(p, &name) {
+                        touched.push(n);
+                    }
+                }
+            }
+            Op::Rename { via, src, .. } => {
+                if let Resolved::At(p, name) = self.model.resolve(self.via_node(*via), src) {
+                    if let Some(n) = self.model.lookup(p, &name) {
+                        touched.push(n);
+                    }
+                }
+            }
+            Op::CreateFile { keep, .. } | Op::OpenFile { keep, .. } => {
+                // a replaced slot drops its old handle
+                if *keep > 0 {
+                    if let Some(f) = self.files[(*keep as usize - 1) % NSLOTS].as_ref() {
+                        touched.push(f.node);
+                    }
+                }
+            }
+            Op::Remount { .. } => {
+                for f in self.files.iter().flatten() {
+                    touched.push(f.node);
+                }
+            }
+            _ => {}
+        }
+        if touched.is_empty() {
+            return;
+        }
+        let model = &self.model;
+        for e in self.flush_events.iter_mut() {
+            if e.until.is_none() && model.is_live(e.node) && touched.iter().any(|t| model.is_ancestor_or_self(*t, e.node)) {
+                e.until = Some(at);
+            }
+        }
+    }
+
+    /// C13: judge the device writes issued since the read-only session began
+    pub fn check_readonly(&mut self, what: &str) -> VResult<()> {
+        let writes: Vec<crate::dev::Call> = self.dev.with(|d| d.log.iter().filter(|c| c.kind == Kind::Write && c.len > 0).copied().collect());
+        if writes.is_empty() {
+            return Ok(());
+        }
+        let g = &self.geom;
+        let fi = g.fsinfo_off();
+        let allowed = g.width == 32 && self.stats_queried && self.ro_fsinfo_unusable;
+        for w in &writes {
+            let inside = w.off >= fi && w.off + w.len <= fi + g.bps;
+            if !(allowed && inside) {
+                return Err(self.viol(Aspect::NoWrite, format!("read-only session wrote {} bytes at offset {} during {} (FAT{}, stats called: {}, FS-info count usable at mount: {})", w.len, w.off, what, g.width, self.stats_queried, !self.ro_fsinfo_unusable)));
+            }
+        }
+        self.trace.hit("fsinfo_count_stored");
+        Ok(())
+    }
+
+    /// C13: end the populating session, optionally mark the volume dirty / the FS-info count unknown by raw edits,
+    /// and start the read-only session whose writes are judged
+    pub fn begin_readonly(&mut self, dirty: bool, fsinfo_unknown: bool) -> VResult<()> {
+        self.close_all()?;
+        if let Some(sess) = self.sess.take() {
+            let _ = guard(move || sess.unmount());
+        }
+        let g = self.geom.clone();
+        self.dev.with(|d| {
+            if dirty {
+                let mut b = [0u8; 1];
+                d.store.read_at(g.status_off(), &mut b);
+                d.store.write_at(g.status_off(), &[b[0] | 1]);
+            }
+            if fsinfo_unknown && g.width == 32 {
+                d.store.write_at(g.fsinfo_off() + 488, &0xFFFF_FFFFu32.to_le_bytes());
+            }
+        });
+        let (cnt, st) = self.dev.with_store(|s| (refdec::rd32(s, g.fsinfo_off() + 488), refdec::rd8(s, g.status_off())));
+        self.ro_fsinfo_unusable = g.width == 32 && (cnt == 0xFFFF_FFFF || cnt as u64 > g.clusters || st & 1 != 0);
+        self.vol.access_date = false;
+        self.dev.with(|d| {
+            d.log.clear();
+            d.log_calls = true;
+        });
+        self.ro_mode = true;
+        self.mount()?;
+        self.check_readonly("mount")?;
+        Ok(())
+    }
+
+    /// C13: end of the read-only session by unmount() or by drop
+    pub fn end_readonly(&mut self, by_drop: bool) -> VResult<()> {
+        self.close_all()?;
+        self.check_readonly("dropping the handles")?;
+        if let Some(sess) = self.sess.take() {
+            let r = guard(move || {
+                if by_drop {
+                    drop(sess);
+                    Ok(())
+                } else {
+                    sess.unmount()
+                }
+            });
+            if let Caught::Panic(p) = r {
+                return Err(self.viol(Aspect::Panic, format!("unmount panicked: {}", p)));
+            }
+        }
+        self.check_readonly(if by_drop { "drop of the FileSystem" } else { "unmount" })?;
+        // if the count was stored it has to be the true one
+        if self.trace.has("fsinfo_count_stored") {
+            let free = self.free_now();
+            let cnt = self.dev.with_store(|s| refdec::rd32(s, self.geom.fsinfo_off() + 488));
+            if cnt as u64 != free {
+                return Err(self.viol(Aspect::NoWrite, format!("the FS-info sector was rewritten with free count {}, the table has {} free entries", cnt, free)));
+            }
         }
         Ok(())
     }
@@ -1262,6 +1463,18 @@ impl<'a> Run<'a> {
     }
 
     fn op_remount(&mut self, how: u8) -> VResult<bool> {
+        if self.ro_mode {
+            self.end_readonly(how % 2 == 1)?;
+            // next read-only session on the same volume
+            let (cnt, st) = self.dev.with_store(|s| (refdec::rd32(s, self.geom.fsinfo_off() + 488), refdec::rd8(s, self.geom.status_off())));
+            self.ro_fsinfo_unusable = self.geom.width == 32 && (cnt == 0xFFFF_FFFF || cnt as u64 > self.geom.clusters || st & 1 != 0);
+            self.dev.with(|d| d.log.clear());
+            self.trace.classes.remove("fsinfo_count_stored");
+            self.mount()?;
+            self.check_readonly("mount")?;
+            self.trace.hit("ro_remount");
+            return Ok(true);
+        }
         self.close_all()?;
         if self.cfg.checkpoint {
             self.checkpoint("before unmount")?;
